@@ -7,6 +7,7 @@ import (
 	"math/big"
 	"sort"
 	"strconv"
+	"strings"
 
 	"golang.org/x/tools/go/ssa"
 )
@@ -560,6 +561,13 @@ func (ln *linear) add(t *Term, c *big.Int) {
 		ln.add(t.Args[0], new(big.Int).Neg(c))
 		return
 	}
+	// an ascending counter started at a constant is the counter started at 0 plus that constant: j+6 <= n and j <= n-6 are one literal
+	if t.Op == "ind" && len(t.Args) == 1 && strings.HasPrefix(t.Name, "+") && isInt && signed {
+		if v, ok := isConstInt(t.Args[0]); ok && v.Sign() != 0 {
+			ln.k.Add(ln.k, new(big.Int).Mul(v, c))
+			t = &Term{Op: "ind", Name: t.Name, V: t.V, Args: []*Term{mkConst(big.NewInt(0), t.Args[0].V)}}
+		}
+	}
 	key := t.String()
 	if ln.coef[key] == nil {
 		ln.coef[key] = new(big.Int)
@@ -659,6 +667,15 @@ func canonLinearCmp(t *Term) *Term {
 		if len(keys) == 1 && ln.coef[keys[0]].Cmp(big.NewInt(1)) == 0 && nonNegative(ln.atoms[keys[0]]) {
 			op, k = nonNegOp(op, k)
 		}
+		if len(keys) == 1 && ln.coef[keys[0]].Cmp(big.NewInt(1)) == 0 && zeroOrOne(ln.atoms[keys[0]]) {
+			// a constant-time comparison yields 0 or 1: x == 0 ⟺ x != 1, x < 1 ⟺ x != 1, x >= 1 ⟺ x == 1
+			switch {
+			case op == "==" && k.Sign() == 0, op == "<" && k.Cmp(big.NewInt(1)) == 0:
+				op, k = "!=", big.NewInt(1)
+			case op == "!=" && k.Sign() == 0, op == ">=" && k.Cmp(big.NewInt(1)) == 0:
+				op, k = "==", big.NewInt(1)
+			}
+		}
 		if len(keys) == 1 && ln.coef[keys[0]].Cmp(big.NewInt(1)) == 0 && minusOneOrMore(ln.atoms[keys[0]]) && k.Sign() == 0 {
 			// x < 0 ⟺ x == -1 and x >= 0 ⟺ x != -1 for a result that is -1 or an index
 			switch op {
@@ -713,6 +730,19 @@ func canonLinearCmp(t *Term) *Term {
 		return &Term{Op: "bin", Name: op, V: t.V, Args: []*Term{l, mkConst(k, r.V)}}
 	}
 	return t
+}
+
+// zeroOrOne: results of the constant-time comparison routines are 0 or 1.
+func zeroOrOne(t *Term) bool {
+	if t.Op != "call" {
+		return false
+	}
+	switch t.Name {
+	case "(*filippo.io/edwards25519.Scalar).Equal", "(*filippo.io/edwards25519.Point).Equal", "(*filippo.io/edwards25519/field.Element).Equal",
+		"crypto/subtle.ConstantTimeCompare", "crypto/subtle.ConstantTimeEq", "crypto/subtle.ConstantTimeByteEq", "crypto/subtle.ConstantTimeLessOrEq":
+		return true
+	}
+	return false
 }
 
 // minusOneOrMore: results of the Index family are -1 or a valid index.
